@@ -83,8 +83,17 @@ def seed():
 
 # ------------------------------------------------------------------ Go side
 
+# environment knobs that change what goom or the Go runtime/toolchain does: a check must decide the same thing
+# whatever the caller's shell happens to export (a probe that needs one of these passes it through `extra`)
+_SCRUB = ('GODEBUG', 'GOGC', 'GOMEMLIMIT', 'GOMAXPROCS', 'GOTRACEBACK', 'GOEXPERIMENT', 'GOARCH', 'GOOS', 'GOAMD64',
+          'GO111MODULE', 'GOWORK', 'GOINSECURE', 'GOBIN', 'GORACE', 'GOCOVERDIR', 'CGO_CFLAGS', 'CGO_LDFLAGS',
+          'GO_EXTLINK_ENABLED', 'GOLDFLAGS', 'GOGCCFLAGS')
+
+
 def goenv(extra=None):
-    e = dict(os.environ)
+    e = {k: v for k, v in os.environ.items()
+         if k not in _SCRUB and not (k.startswith('GOOM_') and k != 'GOOM_REPO')}
+    e['GOWORK'] = 'off'
     e.update({'GOFLAGS': '-mod=mod', 'GOPROXY': 'off', 'GOSUMDB': 'off', 'GOTOOLCHAIN': 'local',
               'HOME': os.path.join(BUILD, 'home'), 'GOPATH': '/root/go', 'GOMODCACHE': '/root/go/pkg/mod',
               'GOCACHE': os.environ.get('GOCACHE', '/root/.cache/go-build'), 'CGO_ENABLED': os.environ.get('CGO_ENABLED', '1')})
